@@ -57,6 +57,16 @@ Theorem C20_rejects_biorth :
 Proof. exact rejects_biorth. Qed.
 Print Assumptions C20_rejects_biorth.
 
+(* all subspaces orthonormal within themselves ([ev_overlap_within] arbitrary, e.g. Yes) but
+   vectors of two DIFFERENT subspaces overlap: _check_biorthonormality compares the stacked
+   overlap matrix with the identity, so the call is rejected at definition *)
+Theorem C20_rejects_cross_overlap :
+  forall c, defect_cross_overlap c ->
+  exists e, validate c = Reject e AtDefinition /\
+            (listed e \/ (e = UnboundLocalError /\ custom c = true)).
+Proof. exact rejects_cross_overlap. Qed.
+Print Assumptions C20_rejects_cross_overlap.
+
 Theorem C20_rejects_mask_asym :
   forall c, defect_mask_asym c ->
   exists e, validate c = Reject e AtDefinition /\
@@ -160,6 +170,23 @@ Definition with_shares (c : call) : call :=
          (c_direct_solver c) (c_fd c) (c_preblocked c) (c_blocks_square c) (c_eigvecs c) (c_indices c)
          (c_h0_symbolic c) (c_nblocks c) (c_h0_off c)
          (c_h0_diag_zero c) (c_second_quant c) (fun i j => (Nat.eqb i 0 && Nat.eqb j 2)%bool) (c_term_herm c).
+
+(* eigenvector designation, every subspace orthonormal within itself, two subspaces overlapping *)
+Definition with_vecs (c : call) (ev : eigvecs) : call :=
+  mkCall (c_format c) (c_nparams c) (c_symbols_missing c) (c_keys c) (c_hermitian c) (c_solver_arity c)
+         (c_direct_solver c) (c_fd c) (c_preblocked c) (c_blocks_square c) (Some ev) false
+         (c_h0_symbolic c) (c_nblocks c) (c_h0_off c)
+         (c_h0_diag_zero c) (c_second_quant c) (c_pair_shares c) (c_term_herm c).
+Definition cross_vecs : eigvecs := mkEigvecs false true true VecNumpy Yes No true true true.
+Definition fine_vecs : eigvecs := mkEigvecs false true true VecNumpy Yes Yes true true true.
+
+Example C20_cross_overlap_ex :
+  defect_cross_overlap (with_vecs wp_call cross_vecs) /\
+  validate (with_vecs wp_call cross_vecs) = Reject ValueError AtDefinition /\
+  validate (with_vecs wp_call fine_vecs) = Accept.
+Proof.
+  repeat split; try reflexivity. exists cross_vecs. repeat split; try reflexivity. discriminate.
+Qed.
 
 Example C20_rejects_ex :
   defect_h0_offdiag (with_off wp_call) /\
